@@ -21,6 +21,11 @@ type SimStore struct {
 	// passthrough: ops are applied without parking (used during scenario set-up)
 	passthrough bool
 	txSeq       int
+	// sequential fault enumeration (api/import families): the failAt-th store operation of
+	// the current call fails (-1/0 = none); lastFailed names it
+	opCount    int
+	failAt     int
+	lastFailed string
 }
 
 func newSimStore(w *World) *SimStore {
@@ -51,6 +56,9 @@ func (h *storeHandle) txn(ctx context.Context) *simTxn {
 
 func (h *storeHandle) NewTransaction(ctx context.Context, update bool) (database.Transaction, context.Context, error) {
 	s := h.s
+	if s.countOp("newtx", "") {
+		return nil, ctx, cerrors.Errorf("sim-fault db new transaction")
+	}
 	if !s.passthrough {
 		d := s.w.park(nil, "db.newtx", "", h.inc, nil, "db.err")
 		if d.fault != "" {
@@ -67,6 +75,9 @@ func (h *storeHandle) NewTransaction(ctx context.Context, update bool) (database
 func (h *storeHandle) Set(ctx context.Context, key string, value []byte) error {
 	s := h.s
 	if t := h.txn(ctx); t != nil {
+		if s.countOp("txset", key) {
+			return cerrors.Errorf("sim-fault db set %s", key)
+		}
 		if !s.passthrough {
 			d := s.w.park(nil, "db.txset", key, h.inc, nil, "db.err")
 			if d.fault != "" {
@@ -80,6 +91,9 @@ func (h *storeHandle) Set(ctx context.Context, key string, value []byte) error {
 		t.changes[key] = value
 		s.w.log(Event{Kind: "TX_SET", Ent: key, Inc: h.inc, N: t.id, OK: true})
 		return nil
+	}
+	if s.countOp("set", key) {
+		return cerrors.Errorf("sim-fault db set %s", key)
 	}
 	if !s.passthrough {
 		d := s.w.park(nil, "db.set", key, h.inc, nil, "db.err")
@@ -165,6 +179,10 @@ func (t *simTxn) Commit() error {
 	if t.done {
 		return cerrors.New("sim store: transaction already finished")
 	}
+	if s.countOp("commit", "") {
+		t.done = true
+		return cerrors.Errorf("sim-fault db commit")
+	}
 	if !s.passthrough {
 		d := s.w.park(nil, "db.commit", "", t.h.inc, nil, "db.err")
 		if d.fault != "" {
@@ -244,4 +262,17 @@ func statusName(s int) string {
 		return "recovering"
 	}
 	return "unknown"
+}
+
+// countOp counts one store operation of the current call and reports whether it is the one to fail.
+func (s *SimStore) countOp(kind, key string) bool {
+	if !s.passthrough {
+		return false
+	}
+	s.opCount++
+	if s.failAt > 0 && s.opCount == s.failAt {
+		s.lastFailed = storeOpClass(kind, key)
+		return true
+	}
+	return false
 }
